@@ -246,6 +246,8 @@ class Fiber(FBase):
     def getPayloadRef(self, *cs, trace=None):
         f = self
         for c in cs:
+            if type(c) is not int:
+                c = norm_coord(c)     # 1.0 (from a rational projection) and 1 are the same coordinate
             i = bisect.bisect_left(f.coords, c)
             if i < len(f.coords) and f.coords[i] == c:
                 f = f.payloads[i]
@@ -264,6 +266,8 @@ class Fiber(FBase):
         for c in cs:
             if isinstance(f, Payload):
                 raise RtError("getPayload past a leaf")
+            if type(c) is not int:
+                c = norm_coord(c)
             i = bisect.bisect_left(f.coords, c)
             if i < len(f.coords) and f.coords[i] == c:
                 f = f.payloads[i]
